@@ -1,2 +1,53 @@
-/-! Stub driver: the model driver for this property is not built yet. -/
-def main : IO Unit := IO.println "unimplemented"
+import JoblibModel.FuncCode
+import JoblibModel.IOUtil
+/-! Driver for C12: a stateful interpreter of histories over `JoblibModel.FuncCode.step`.
+
+  reset <old|fixed>          model of the pinned tree / of the tree with the F10 repair   → ok
+  def <obj> <src> <0|1>      a `def` (1) or `lambda` (0) creating object <obj> with source <src> → ok
+  swap <obj> <src>           → ok | notlive
+  call <obj> <a>             → val <x|h> <src> <a>  (the value is (source, argument)) | notlive
+  check <obj> <a>            → flag <0|1> | notlive
+  clearfn <obj>              → ok | notlive
+  clearall | fresh           → ok
+
+Anything else, and any request before the first `reset`, is answered `bad-op`. -/
+open JoblibModel JoblibModel.FuncCode JoblibModel.IOUtil
+
+abbrev RV := Nat × Nat
+
+structure DS where
+  ver : Option Version := none
+  st : State RV := {}
+
+def sem : Src → Nat → RV := fun k a => (k, a)
+
+def showOut : Out RV → String
+  | .value r x => joinSp ["val", if x then "x" else "h", toString r.1, toString r.2]
+  | .flag b => if b then "flag 1" else "flag 0"
+  | .done => "ok"
+  | .notLive => "notlive"
+
+def pOp : List String → Option Op
+  | ["def", o, k, n] => do
+    let named ← (match n with | "0" => some false | "1" => some true | _ => none)
+    pure (.define (← o.toNat?) (← k.toNat?) named)
+  | ["swap", o, k] => do pure (.swap (← o.toNat?) (← k.toNat?))
+  | ["call", o, a] => do pure (.call (← o.toNat?) (← a.toNat?))
+  | ["check", o, a] => do pure (.check (← o.toNat?) (← a.toNat?))
+  | ["clearfn", o] => do pure (.clearFn (← o.toNat?))
+  | ["clearall"] => some .clearAll
+  | ["fresh"] => some .fresh
+  | _ => none
+
+def handle (s : DS) (line : String) : DS × String :=
+  match tokens line with
+  | ["reset", "old"] => ({ ver := some .old }, "ok")
+  | ["reset", "fixed"] => ({ ver := some .fixed }, "ok")
+  | ts =>
+    match s.ver, pOp ts with
+    | some ver, some op =>
+      let r := step ver sem s.st op
+      ({ s with st := r.2 }, showOut r.1)
+    | _, _ => (s, "bad-op")
+
+def main : IO Unit := stateLoop ({} : DS) handle
